@@ -2602,6 +2602,18 @@ func (db *DB) checkpointWithExecutor(ctx context.Context, mode string, exec *syn
 			s.checkpointMode = mode
 			s.lastSyncedWALOffset = exec.state.lastSyncedWALOffset
 		})
+	// The read lock is released while the checkpoint runs. If this call fails
+	// from here on, commits may have been checkpointed without being copied
+	// and the boundary snapshot that accounts for them is never taken, so the
+	// next sync must not follow a restarted or truncated WAL on the evidence
+	// of the frames it still finds there: treat the session as one that has
+	// not reached the end of the WAL yet.
+	defer func() {
+		if err != nil {
+			exec.state.syncedToWALEnd = false
+			exec.state.reachedWALEnd = false
+		}
+	}()
 	walFrameN, err := db.execCheckpoint(ctx, mode)
 	if err != nil {
 		return false, err
